@@ -53,6 +53,16 @@ def getCfg (j : Json) : Except String LayerCfg := do
   | "dw" => pure ⟨.dw, g, cm⟩
   | _ => throw s!"bad cls {cls}"
 
+/-- the constructor's `data_format` argument (null / absent: omitted) and the process-wide
+    `K.image_data_format()` at construction ("global_cf"; absent: channels_last) -/
+def getDataFormatReq (j : Json) : Except String (Bool × Option Bool) := do
+  let gcf := (getBool j "global_cf").toOption.getD false
+  match (getStr j "df").toOption with
+  | some "channels_first" => pure (gcf, some true)
+  | some "channels_last" => pure (gcf, some false)
+  | some d => throw s!"bad data_format {d}"
+  | none => pure (gcf, none)
+
 def getBN (j : Json) : Except String BN := do
   pure { gamma := ← getOptRatList j "gamma", beta := ← getOptRatList j "beta",
          mean := ← getRatList j "mean", var := ← getRatList j "var", eps := ← getRat j "eps" }
@@ -144,9 +154,12 @@ def handle (j : Json) : Except String Json := do
   match op with
   | "layer" =>
     -- one folded layer: inference call, get_folded_weights, unfolded layer, conv→BN reference
-    -- `Lreq`: the layer as requested; `L`: the layer the constructor builds (`ctorCfg`)
+    -- `Lreq`: the layer in the layout the harness EXPECTS ("cf": the requested one, or the
+    -- process-wide one when none is requested); `L`: the layer the constructor builds from the
+    -- `data_format` argument "df" under the process-wide format "global_cf" (`ctorCfg`)
     let Lreq ← getFolded j
-    let L : Folded := { Lreq with cfg := ctorCfg Lreq.cfg }
+    let (gcf, df) ← getDataFormatReq j
+    let L : Folded := { Lreq with cfg := ctorCfg gcf df Lreq.cfg }
     let tab ← getRs j
     needRs tab L.bn
     let rs := rsOf tab
@@ -156,7 +169,7 @@ def handle (j : Json) : Except String Json := do
     let fw := L.foldedWeights rs
     let un := L.unfold rs
     -- reference: stock conv (no quantizers, linear) followed by stock batch norm
-    --            with the REQUESTED configuration (data_format included)
+    --            in the EXPECTED layout
     let P0 : Plain := { cfg := Lreq.cfg, kernel := L.kernel, bias := L.bias, qk := none, qb := none, act := none }
     let ref := L.bn.infer rs Lreq.cfg.chan (P0.call x)
     -- magnitude (sum of absolute values of all terms) of the un-quantized folded computation,
@@ -178,7 +191,8 @@ def handle (j : Json) : Except String Json := do
   | "history" =>
     -- one layer OBJECT, a list of uses; the observations of `Obj.run`
     let Lreq ← getFolded j
-    let L : Folded := { Lreq with cfg := ctorCfg Lreq.cfg }
+    let (gcf, df) ← getDataFormatReq j
+    let L : Folded := { Lreq with cfg := ctorCfg gcf df Lreq.cfg }
     let tab ← getRs j
     let rs := rsOf tab
     let it ← getInt j "iteration"
@@ -195,7 +209,8 @@ def handle (j : Json) : Except String Json := do
     pure <| Json.mkObj [
       ("obs", Json.arr (r.2.map obsToJson).toArray),
       ("iteration", Json.num r.1.iteration),
-      ("weights", Json.arr (r.1.getWeights.map rats).toArray)]
+      ("weights", Json.arr (r.1.getWeights.map rats).toArray),
+      ("built_cf", Json.bool L.cfg.g.cf)]
   | "graph" =>
     -- a layer DAG: fold-site selection, classes after model_quantize, and the network function
     -- before / after the conversions
